@@ -41,7 +41,16 @@ VIEW_FUNCS = {"asarray", "asanyarray", "ascontiguousarray", "asfortranarray", "a
               "reshape", "ravel", "squeeze", "transpose", "swapaxes", "moveaxis", "rollaxis", "expand_dims",
               "broadcast_to", "broadcast_arrays", "real", "imag", "diagonal", "diag", "array_split", "split", "hsplit",
               "vsplit", "dsplit", "flipud", "fliplr", "flip", "rot90", "triu_indices_from", "nan_to_num",
-              "require", "view", "squeeze", "tuple", "list", "iter", "reversed", "zip", "enumerate"}
+              "require", "view", "squeeze", "tuple", "list", "iter", "reversed", "zip", "enumerate",
+              "as_strided", "sliding_window_view", "frombuffer", "asmatrix", "asarray_chkfinite", "real_if_close",
+              "memoryview", "nditer", "ndenumerate", "flatiter", "nested_iters", "broadcast", "asfarray"}
+# operator-module procedures that modify their first argument in place
+OPERATOR_INPLACE = {"iadd", "isub", "imul", "itruediv", "ifloordiv", "ipow", "imod", "iand", "ior", "ixor", "imatmul",
+                    "ilshift", "irshift", "iconcat", "setitem", "delitem", "setattr", "delattr",
+                    "__iadd__", "__isub__", "__imul__", "__itruediv__", "__setitem__", "__delitem__"}
+# SciPy-style licence to destroy a positional argument: keyword -> position
+OVERWRITE_KW = {"overwrite_a": 0, "overwrite_b": 1, "overwrite_x": 0, "overwrite_input": 0, "overwrite_ab": 0,
+                "overwrite_data": 0, "overwrite_v": 0, "overwrite_c": 2}
 VIEW_METHODS = {"reshape", "ravel", "squeeze", "transpose", "swapaxes", "view", "diagonal", "flatten_view",
                 "__getitem__", "get", "items", "values"}
 # methods that return fresh objects (everything else called on an object is treated as possibly aliasing it)
@@ -82,6 +91,9 @@ class Ctx:
         self.notes = []
         self.globals_declared = set()
         self.local_imports = {}
+        self.local_defs = {}   # (prefixed) name -> closure: nested defs and `f = lambda …` of this function
+        self.clo_n = 0
+        self.clo_depth = 0
 
     def var(self, name):
         if name not in self.vars:
@@ -110,8 +122,14 @@ class Translator:
                 e = e.value
             elif isinstance(e, (ast.Subscript, ast.Starred)):
                 e = e.value
+            elif isinstance(e, ast.Call) and isinstance(e.func, ast.Attribute) and e.func.attr in VIEW_FUNCS and e.args \
+                    and self.base_name(e.func.value) in LIBRARY_ROOTS:
+                e = e.args[0]                                  # numpy.squeeze(a)[0] = 0 writes a
             elif isinstance(e, ast.Call) and isinstance(e.func, ast.Attribute) and e.func.attr in VIEW_METHODS:
                 e = e.func.value
+            elif isinstance(e, ast.Call) and isinstance(e.func, ast.Name) and e.func.id in VIEW_FUNCS and e.args \
+                    and e.func.id not in ("tuple", "list", "zip", "enumerate", "iter", "reversed"):
+                e = e.args[0]
             else:
                 return None
 
@@ -130,9 +148,7 @@ class Translator:
             return out
         if isinstance(e, ast.Lambda):
             # conservatively: the body is assumed to run (its writes to captured variables count at the definition site)
-            for a in e.args.args:
-                cx.var(pfx + a.arg)
-            return self.sources(e.body, cx, pre, pfx, depth)
+            return self.apply_closure(self.make_closure(e, cx), [], {}, cx, pre, pfx, depth)
         if isinstance(e, ast.Name):
             return [cx.var(pfx + e.id)] if (pfx + e.id) in cx.vars else []
         if isinstance(e, ast.Attribute):
@@ -189,7 +205,88 @@ class Translator:
         cx.notes.append("unclassified expression %s" % type(e).__name__)
         return list(range(len(cx.params)))
 
+    # ------------------------------------------------------------------ closures (nested defs, lambdas)
+    def make_closure(self, node, cx):
+        """(parameter names, body statements) of a nested def / lambda, its parameters renamed apart from the variables of the
+        enclosing function (the abstract interpreter updates strongly, so a parameter must not clobber a captured name)"""
+        cx.clo_n += 1
+        tag = "§%d" % cx.clo_n
+        a = node.args
+        params = [x.arg for x in a.posonlyargs + a.args + a.kwonlyargs] + ([a.vararg.arg] if a.vararg else []) + \
+                 ([a.kwarg.arg] if a.kwarg else [])
+
+        class Ren(ast.NodeTransformer):
+            def visit_Name(self, n):
+                if n.id in params:
+                    return ast.copy_location(ast.Name(id=n.id + tag, ctx=n.ctx), n)
+                return n
+        import copy as _copy
+        body = [ast.Return(value=node.body)] if isinstance(node, ast.Lambda) else list(node.body)
+        body = [Ren().visit(_copy.deepcopy(s)) for s in body]
+        for s in body:
+            ast.fix_missing_locations(s)
+        return ([q + tag for q in params], [x.arg + tag for x in a.posonlyargs + a.args], body)
+
+    def apply_closure(self, clo, argsrc, kwsrc, cx, pre, pfx, depth, everything=None):
+        """the body of the closure run with its parameters bound to the given alias sources (`everything`: bound to all of them)"""
+        params, positional, body = clo
+        if cx.clo_depth >= 3:
+            for p in range(len(cx.params)):
+                pre.append(("write", p))
+            return []
+        bound = {q: [] for q in params}
+        if everything is not None:
+            bound = {q: list(everything) for q in params}
+        else:
+            for q, s in zip(positional, argsrc):
+                bound[q] = s
+            extra = [s_ for ss in argsrc[len(positional):] for s_ in ss]
+            for k, s in kwsrc.items():
+                hit = [q for q in params if q.split("§")[0] == k]
+                if hit:
+                    bound[hit[0]] = s
+                else:
+                    extra += s
+            for q in params[len(positional):]:
+                bound[q] = bound[q] + extra
+        for q in params:
+            pre.append(("assign", cx.var(pfx + q), bound[q]))
+        cx.clo_depth += 1
+        rets = []
+        pre.append(self.block(body, cx, pfx, depth, rets))
+        cx.clo_depth -= 1
+        return [s for r in rets for s in r]
+
+    def closure_of(self, a, cx, pfx):
+        if isinstance(a, ast.Lambda):
+            return self.make_closure(a, cx)
+        if isinstance(a, ast.Name) and (pfx + a.id) in cx.local_defs:
+            return cx.local_defs[pfx + a.id]
+        return None
+
     def call(self, e, cx, pre, pfx, depth):
+        """closures first: a local def / lambda that is CALLED runs with its arguments; one that is PASSED to another callable
+        (map, sorted(key=), numpy.apply_along_axis, vectorize, …) may be run on anything the other arguments give access to"""
+        f = e.func
+        if isinstance(f, ast.Name) and (pfx + f.id) in cx.local_defs:
+            argsrc = [self.sources(a, cx, pre, pfx, depth) for a in e.args]
+            kwsrc = {k.arg: self.sources(k.value, cx, pre, pfx, depth) for k in e.keywords}
+            return self.apply_closure(cx.local_defs[pfx + f.id], argsrc, kwsrc, cx, pre, pfx, depth)
+        passed = [(a, self.closure_of(a, cx, pfx)) for a in list(e.args) + [k.value for k in e.keywords]]
+        clos = [c for _, c in passed if c is not None]
+        res = self._call(e, cx, pre, pfx, depth)
+        if clos:
+            others = []
+            for a, c in passed:
+                if c is None:
+                    others += self.sources(a, cx, [], pfx, depth)
+            if isinstance(f, ast.Attribute):
+                others += self.sources(f.value, cx, [], pfx, depth)
+            for c in clos:
+                res = res + self.apply_closure(c, [], {}, cx, pre, pfx, depth, everything=others) + others
+        return res
+
+    def _call(self, e, cx, pre, pfx, depth):
         f = e.func
         argsrc = [self.sources(a, cx, pre, pfx, depth) for a in e.args]
         kwsrc = {k.arg: self.sources(k.value, cx, pre, pfx, depth) for k in e.keywords}
@@ -200,6 +297,33 @@ class Translator:
                 if b is not None:
                     pre.append(("write", cx.var(pfx + b)))
         name = f.attr if isinstance(f, ast.Attribute) else (f.id if isinstance(f, ast.Name) else None)
+        opmod = (isinstance(f, ast.Attribute) and self.base_name(f.value) == "operator") or \
+                (isinstance(f, ast.Name) and (self.imported.get(cx.module, {}).get(f.id, "") == "operator"
+                                              or cx.local_imports.get(f.id, "") == "operator"))
+        opname = name
+        if isinstance(f, ast.Name):
+            opname = cx.local_imports.get("operator:" + f.id) or self.imported.get(cx.module, {}).get("operator:" + f.id) or name
+        if ((opmod and opname in OPERATOR_INPLACE) or (isinstance(f, ast.Name) and name in ("setattr", "delattr")
+                                                     and (pfx + name) not in cx.vars)) and e.args:
+            b = self.base_name(e.args[0])                    # operator.iadd(a, 1), setattr(a, "shape", …)
+            if b is not None:
+                pre.append(("write", cx.var((self_prefix(pfx, cx) if b.startswith("self.") else pfx) + b)))
+        for k in e.keywords:
+            if k.arg in OVERWRITE_KW and not (isinstance(k.value, ast.Constant) and k.value.value in (False, None, 0)):
+                pos = OVERWRITE_KW[k.arg]
+                if len(e.args) > pos:                        # scipy.linalg.inv(a, overwrite_a=True)
+                    b = self.base_name(e.args[pos])
+                    if b is not None:
+                        pre.append(("write", cx.var(pfx + b)))
+            if k.arg == "op_flags" and any(isinstance(c, ast.Constant) and c.value in ("readwrite", "writeonly")
+                                           for c in ast.walk(k.value)) or \
+                    (k.arg == "op_flags" and not all(isinstance(c, (ast.Constant, ast.List, ast.Tuple, ast.Load))
+                                                      for c in ast.walk(k.value))):
+                for a0 in e.args[:1]:                        # numpy.nditer(a, op_flags=["readwrite"]): the loop body writes a
+                    for el in (a0.elts if isinstance(a0, (ast.List, ast.Tuple)) else [a0]):
+                        b = self.base_name(el)
+                        if b is not None:
+                            pre.append(("write", cx.var(pfx + b)))
         for k in e.keywords:
             if k.arg in ("output", "a_out"):
                 b = self.base_name(k.value)
@@ -410,6 +534,8 @@ class Translator:
             elif isinstance(st, ast.Assign):
                 s = self.sources(st.value, cx, pre, pfx, depth)
                 seq += pre
+                if isinstance(st.value, ast.Lambda) and len(st.targets) == 1 and isinstance(st.targets[0], ast.Name):
+                    cx.local_defs[pfx + st.targets[0].id] = self.make_closure(st.value, cx)
                 for t in st.targets:
                     self.target_write(t, cx, seq, pfx, s, depth)
             elif isinstance(st, ast.AnnAssign):
@@ -468,7 +594,9 @@ class Translator:
             elif isinstance(st, ast.Global):
                 cx.globals_declared.update(st.names)
             elif isinstance(st, ast.Delete):
-                pass
+                for tg in st.targets:                        # `del J[0]` / `del a.attr` modify the object; `del name` does not
+                    if isinstance(tg, (ast.Subscript, ast.Attribute)):
+                        self.target_write(tg, cx, seq, pfx, [], depth)
             elif isinstance(st, (ast.Raise, ast.Assert)):
                 for sub in ast.iter_child_nodes(st):
                     if isinstance(sub, ast.expr):
@@ -477,15 +605,16 @@ class Translator:
             elif isinstance(st, ast.ImportFrom):
                 for al in st.names:
                     cx.local_imports[al.asname or al.name] = st.module or ""
+                    if st.module == "operator":
+                        cx.local_imports["operator:" + (al.asname or al.name)] = al.name
             elif isinstance(st, (ast.Pass, ast.Break, ast.Continue, ast.Import, ast.Nonlocal)):
                 pass
             elif isinstance(st, ast.FunctionDef):
                 # a nested function: conservatively its body is assumed to run (its writes to captured variables count);
                 # its own parameters are fresh
-                for a in st.args.args:
-                    seq.append(("assign", cx.var(pfx + a.arg), []))
-                inner = []
-                seq.append(self.block(st.body, cx, pfx, depth, inner))
+                clo = self.make_closure(st, cx)
+                self.apply_closure(clo, [], {}, cx, seq, pfx, depth)
+                cx.local_defs[pfx + st.name] = clo
             elif isinstance(st, ast.ClassDef):
                 cx.notes.append("nested class %s ignored" % st.name)
             else:
@@ -610,6 +739,8 @@ def collect(repo=REPO, modules=None):
             if isinstance(st, ast.ImportFrom):
                 for al in st.names:
                     imported[al.asname or al.name] = st.module or ""
+                    if st.module == "operator":
+                        imported["operator:" + (al.asname or al.name)] = al.name
             if isinstance(st, ast.Import):
                 for al in st.names:
                     imported[(al.asname or al.name).split(".")[0]] = al.name
